@@ -1,13 +1,15 @@
-(* Soundness of the arity lattice (C03): for every grammar, every expression and
+(* Soundness of the arity lattice and of the type sets (C03): for every grammar, every expression and
    every input, the field-match events on the successful path of the
    specification S fit the descriptors Codegen::get_fields computes for that
    expression:
      - every event belongs to a declared field,
-     - a field declared One has exactly one event, Optional at most one.
+     - a field declared One has exactly one event, Optional at most one,
+     - the rule type of every event is in the declared type set of its field
+       (so a multi-type field's generated enum has a variant for it).
    Hence the "arity mismatch" stuck state of S (shape = None) is unreachable:
    the value of every rule match can be stored in the declared struct. *)
 From Coq Require Import Lia.
-From PegV Require Import Utf8 State TerminalsSpec Syntax Fields FieldsFacts GetFieldsFacts Literals Model Spec ShapeFacts.
+From PegV Require Import Utf8 State TerminalsSpec Syntax Fields FieldsFacts GetFieldsFacts TypesFacts Literals Model Spec ShapeFacts.
 
 Section Arity.
 Variable c : fields_cfg.
@@ -26,12 +28,16 @@ Proof. destruct a, a'; cbn; intros; try discriminate; try lia; auto. Qed.
 Lemma count_ok_zero a : ge_arity a Optional = true -> count_ok a 0.
 Proof. destruct a; cbn; intros; try discriminate; try lia; auto. Qed.
 
+Definition typed_in (own : list fdesc) (evs : list event) : Prop :=
+  forall ev, In ev evs -> has_type (ev_typ ev) (types_of (ev_field ev) own) = true.
+
 Definition fits (own : list fdesc) (evs : list event) : Prop :=
   (forall ev, In ev evs -> has_fd (ev_field ev) own = true) /\
+  typed_in own evs /\
   (forall n a, arity_of n own = Some a -> count_ok a (length (mine n evs))).
 
 Lemma fits_nil_nil : fits [] [].
-Proof. split; [intros ev []|intros n a H; discriminate]. Qed.
+Proof. split; [intros ev []|split; [intros ev []|intros n a H; discriminate]]. Qed.
 
 Lemma mine_absent n own evs :
   (forall ev, In ev evs -> has_fd (ev_field ev) own = true) -> has_fd n own = false -> mine n evs = [].
@@ -48,10 +54,13 @@ Proof. intro H. apply has_fd_false. exact H. Qed.
 Lemma fits_seq all new evs e1 :
   fits all evs -> fits new e1 -> fits (seq_merge c all new) (evs ++ e1).
 Proof.
-  intros [N1 C1] [N2 C2]. split.
+  intros [N1 [T1 C1]] [N2 [T2 C2]]. split; [|split].
   - intros ev Hin. rewrite (seq_merge_names c Hc). apply in_app_or in Hin. destruct Hin as [Hin|Hin].
     + rewrite (N1 _ Hin). reflexivity.
     + rewrite (N2 _ Hin). apply orb_true_r.
+  - intros ev Hin. apply in_app_or in Hin. destruct Hin as [Hin|Hin].
+    + apply seq_merge_types_old. apply T1. exact Hin.
+    + apply seq_merge_types_new. apply T2. exact Hin.
   - intros n a Ha. rewrite mine_app, app_length.
     destruct (arity_of n all) as [x|] eqn:Ea; destruct (arity_of n new) as [y|] eqn:En.
     + rewrite (seq_merge_both c Hc n new all x y Ea En) in Ha. injection Ha as <-. exact I.
@@ -68,13 +77,14 @@ Qed.
 (* a child's events fit every dominating descriptor list in which the names
    that the child lacks are at least Optional *)
 Lemma fits_up lp l evs :
-  fits lp evs -> sub lp l ->
+  fits lp evs -> sub lp l -> tsub lp l ->
   (forall n a, arity_of n lp = None -> arity_of n l = Some a -> ge_arity a Optional = true) ->
   fits l evs.
 Proof.
-  intros [N C] S M. split.
+  intros [N [T C]] S TS M. split; [|split].
   - intros ev Hin. specialize (N ev Hin). apply has_fd_arity in N. destruct N as [a Ha].
     destruct (S _ _ Ha) as [a' [Ha' _]]. apply has_fd_arity. eauto.
+  - intros ev Hin. apply TS. apply T. exact Hin.
   - intros n a Ha. destruct (arity_of n lp) as [b|] eqn:Eb.
     + destruct (S _ _ Eb) as [a' [Ha' G]]. rewrite Ha in Ha'. injection Ha' as <-.
       eapply count_ok_ge; [exact G|]. apply C. exact Eb.
@@ -111,12 +121,13 @@ Definition expr_claim (sv : sevals) : Prop :=
   forall F skip e cs o evs cs' o' l own,
     get_fields c F g e = GFOk own -> sv_expr sv skip e cs o = SOk evs cs' o' l -> fits own evs.
 
+Definition in_own (lb : list fdesc) (evs : list event) : Prop :=
+  forall ev, In ev evs -> has_fd (ev_field ev) lb = true /\ has_type (ev_typ ev) (types_of (ev_field ev) lb) = true.
+
 Definition loop_claim (sv : sevals) : Prop :=
   forall F skip b plus cs o it evs0 acc evs cs' o' l lb,
-    get_fields c F g b = GFOk lb ->
-    (forall ev, In ev evs0 -> has_fd (ev_field ev) lb = true) ->
-    sv_loop sv skip b plus cs o it evs0 acc = SOk evs cs' o' l ->
-    (forall ev, In ev evs -> has_fd (ev_field ev) lb = true).
+    get_fields c F g b = GFOk lb -> in_own lb evs0 ->
+    sv_loop sv skip b plus cs o it evs0 acc = SOk evs cs' o' l -> in_own lb evs.
 
 Lemma seq_claim sv (H : expr_claim sv) F skip parts : forall cs o evs0 acc all res evs cs' o' l,
   gf_seq c (get_fields c F g) parts all = GFOk res -> fits all evs0 ->
@@ -150,7 +161,9 @@ Proof.
       - eapply s_choice_ok; exact E. }
     destruct K as [a [l' [Hin Ea]]].
     destruct (Hsub a Hin) as [lp [Gp Sp]].
-    eapply fits_up; [eapply He; eauto|exact Sp|].
+    destruct (gf_choice_parts_ok c _ _ _ _ _ G a Hin) as [new Gn].
+    pose proof (gf_lift c g _ _ _ Gn) as Gn'. rewrite Gp in Gn'. injection Gn' as <-.
+    eapply fits_up; [eapply He; eauto|exact Sp|eapply gf_choice_tsub; eauto|].
     intros n x Hn Hx. eapply Hmiss; eauto.
   - (* ESeq *)
     destruct parts as [|p [|p2 rest]].
@@ -163,18 +176,20 @@ Proof.
   - (* EOptional *)
     destruct (get_fields c F' g e) as [lb| |] eqn:Gb; try discriminate. injection G as <-.
     destruct (sv_expr sv skip e cs o) as [e1 cs1 o1 l1|l1| |] eqn:Eb; try discriminate.
-    + injection E as <- <- <- <-. pose proof (He _ _ _ _ _ _ _ _ _ _ Gb Eb) as [N C]. split.
+    + injection E as <- <- <- <-. pose proof (He _ _ _ _ _ _ _ _ _ _ Gb Eb) as [N [T C]]. split; [|split].
       * intros ev Hin. rewrite map_set_has. auto.
+      * intros ev Hin. rewrite types_of_map_set. auto.
       * intros n a Ha. rewrite arity_of_map_set in Ha. destruct (arity_of n lb) as [b|] eqn:Eq; [|discriminate].
         injection Ha as <-. eapply count_ok_ge; [apply (opt_ge c Hc)|]. apply C. exact Eq.
-    + injection E as <- _ _ _. split; [intros ev []|].
+    + injection E as <- _ _ _. split; [intros ev []|split; [intros ev []|]].
       intros n a Ha. rewrite arity_of_map_set in Ha. destruct (arity_of n lb) as [b|]; [|discriminate].
       injection Ha as <-. cbn. apply count_ok_zero. apply (opt_ge_optional c Hc).
   - (* EClosure *)
     destruct (get_fields c F' g e) as [lb| |] eqn:Gb; try discriminate. injection G as <-.
-    split.
-    + intros ev Hin. rewrite map_set_has.
-      eapply (Hl F' skip e at_least_one cs o 0 [] [] evs cs' o' l lb Gb); [intros ? []|exact E|exact Hin].
+    assert (IO : in_own lb evs) by (eapply (Hl F' skip e at_least_one cs o 0 [] [] evs cs' o' l lb Gb); [intros ? []|exact E]).
+    split; [|split].
+    + intros ev Hin. rewrite map_set_has. apply IO. exact Hin.
+    + intros ev Hin. rewrite types_of_map_set. apply IO. exact Hin.
     + intros n a Ha. rewrite arity_of_map_set in Ha. destruct (arity_of n lb) as [b|]; [|discriminate].
       injection Ha as <-. rewrite (clo_multiple c Hc). exact I.
   - (* ENeg *)
@@ -197,8 +212,9 @@ Proof.
     destruct (s_with_ws sv skip cs o (fun cs0 o0 => sv_rule sv typ cs0 o0)) as [v cs1 o1 l1|l1| |]; try discriminate.
     injection E as <- _ _ _.
     destruct (fname_of fname) as [n|]; injection G as <-; [|apply fits_nil_nil].
-    split.
+    split; [|split].
     + intros ev [<-|[]]. cbn. unfold has_fd. cbn. rewrite name_eqb_refl. reflexivity.
+    + intros ev [<-|[]]. unfold types_of, has_type. cbn. rewrite !name_eqb_refl. cbn. rewrite name_eqb_refl. reflexivity.
     + intros m a Ha. unfold arity_of in Ha. cbn in Ha. unfold mine. cbn.
       destruct (name_eqb n m) eqn:Em; [|discriminate]. injection Ha as <-. reflexivity.
 Qed.
@@ -210,7 +226,7 @@ Proof.
   destruct (sv_expr sv skip b cs o) as [e1 cs1 o1 l1|l1| |] eqn:Eb; try discriminate.
   - eapply Hl; [exact Gb| |exact E].
     intros ev Hin. apply in_app_or in Hin. destruct Hin as [Hin|Hin]; [auto|].
-    destruct (He _ _ _ _ _ _ _ _ _ _ Gb Eb) as [N _]. auto.
+    destruct (He _ _ _ _ _ _ _ _ _ _ Gb Eb) as [N [T _]]. split; [apply N|apply T]; exact Hin.
   - destruct (plus && Nat.eqb it 0); try discriminate. injection E as <- _ _ _. exact H0.
 Qed.
 
@@ -227,7 +243,7 @@ Qed.
 Lemma field_value_fits own evs fd :
   fits own evs -> find_fd (fd_name fd) own = Some fd -> field_value fd evs <> None.
 Proof.
-  intros [_ C] Hf. specialize (C (fd_name fd) (fd_arity fd)).
+  intros [_ [_ C]] Hf. specialize (C (fd_name fd) (fd_arity fd)).
   unfold arity_of in C. rewrite Hf in C. specialize (C eq_refl).
   rewrite field_value_mine. destruct (fd_arity fd); cbn in C.
   - destruct (mine (fd_name fd) evs) as [|e [|e2 r]]; cbn in C; try discriminate; lia.
